@@ -3,12 +3,12 @@
    are not modelled), lib/Civil.v (calendar).
    String level: models/TimerText.v (ParseSchedule and Schedule.String over byte lists).
    Manager level: models/AutoRefresh.v (the planning logic of autoRefresh.Ensure; constants from gen/RefreshConsts.v).
-   NOT proved here (partial, see notes/C16.md): that the day search of Schedule.Next terminates within a stated number
-   of days (C16_in_window_partial is conditional on `sched_next fuel ... = Some w`). *)
+   The day search of Schedule.Next is proved to terminate within next_fuel last now days (proofs/TimerFuelProofs.v; the
+   calendar facts it rests on are computed over one 400-year cycle in proofs/TimerCalendarFacts.v). *)
 From Coq Require Import List ZArith Bool String.
 Import ListNotations.
 Require Import V.lib.Bytes V.lib.Civil V.models.Timer V.proofs.TimerProofs V.models.TimerText V.proofs.TimerTextProofs.
-Require Import V.gen.RefreshConsts V.models.AutoRefresh V.proofs.AutoRefreshProofs.
+Require Import V.gen.RefreshConsts V.models.AutoRefresh V.proofs.AutoRefreshProofs V.proofs.TimerFuelProofs.
 Open Scope Z_scope.
 
 (* The refresh limit, for ANY schedule functions: whatever windows the schedules' Next return, timeutil.Next's chosen
@@ -27,10 +27,34 @@ Theorem C16_limit : forall (nexts : list window) (last maxd now : Z),
 Proof. exact limit_any_schedule. Qed.
 Print Assumptions C16_limit.
 
-(* What Schedule.Next returns is a window of the schedule: the window of one of its flattened clock spans on a day not
-   before the day of `last` that the week spans accept; it does not end before now, does not contain last, and is the
-   earliest such window of that day. (Conditional on the day search succeeding within `fuel` days.) *)
-Theorem C16_in_window_partial : forall (fuel : nat) (s : schedule) (last now : Z) (w : window),
+(* The day search of Schedule.Next terminates: for every schedule with well-formed week spans and clock spans (what
+   ParseSchedule accepts, C16_parse_accepts_only_wf) and every last and now, sched_next with
+   fuel = next_fuel last now = (days from last to now, if positive) + 64 never returns the out-of-fuel value.
+   (A plain weekday recurs within 7 days; a numbered week span (mon1 .. fri5, ranges anchored at either end) is matched
+   on its anchor day, which recurs within 61 days of any day. General proof; the calendar facts it uses — day of month
+   within 1..31, first-of-month arithmetic, month lengths 28..31, monthNext on the last seven days of a month — are
+   established by a sweep over the 146097 days of one 400-year cycle and lifted by periodicity.) *)
+Theorem C16_next_fuel : forall (s : schedule) (last now : Z),
+  sched_wf s = true -> exists w, sched_next (next_fuel last now) s last now = Some w.
+Proof. exact next_fuel_suffices. Qed.
+Print Assumptions C16_next_fuel.
+
+(* What Schedule.Next returns is a window of the schedule (unconditional): the window of one of its flattened clock spans
+   on a day, not before the day of `last`, that the week spans accept; it does not end before now, does not contain
+   last, and is the earliest such window of that day. *)
+Theorem C16_in_window : forall (s : schedule) (last now : Z), sched_wf s = true ->
+  exists w k cs, sched_next (next_fuel last now) s last now = Some w /\
+    0 <= k < Z.of_nat (next_fuel last now) /\ In cs (flattened s) /\
+    let D := last / 86400 + k in
+    w = window_of cs D /\ week_ok s D = true /\ now <= w_end w /\ (last < w_start w \/ w_end w < last) /\
+    (forall cs', In cs' (flattened s) -> now <= w_end (window_of cs' D) ->
+                 (last < w_start (window_of cs' D) \/ w_end (window_of cs' D) < last) ->
+                 w_start w <= w_start (window_of cs' D)).
+Proof. exact next_in_window_total. Qed.
+Print Assumptions C16_in_window.
+
+(* the same for any fuel with which the search succeeds (the differential run uses 400 days) *)
+Theorem C16_in_window_any_fuel : forall (fuel : nat) (s : schedule) (last now : Z) (w : window),
   sched_next fuel s last now = Some w ->
   exists k cs, 0 <= k < Z.of_nat fuel /\ In cs (flattened s) /\
     let D := last / 86400 + k in
@@ -39,7 +63,7 @@ Theorem C16_in_window_partial : forall (fuel : nat) (s : schedule) (last now : Z
                  (last < w_start (window_of cs' D) \/ w_end (window_of cs' D) < last) ->
                  w_start w <= w_start (window_of cs' D)).
 Proof. exact next_in_window. Qed.
-Print Assumptions C16_in_window_partial.
+Print Assumptions C16_in_window_any_fuel.
 
 (* Every instant of such a window that lies on the window's own calendar day is accepted by Includes — under the guard
    that the span's start clock is within the day (not 24:00). *)
@@ -130,7 +154,7 @@ Proof. exact attempt_in_current_timer_window. Qed.
 Print Assumptions C16_attempt_in_current_timer_window.
 
 (* ... where a planned time is: now if there was no previous refresh; otherwise, for the window w that timeutil.Next
-   chooses (C16_limit) among the windows offered by the schedules' Next (C16_in_window_partial) and the fallback at
+   chooses (C16_limit) among the windows offered by the schedules' Next (C16_in_window) and the fallback at
    last + maxPostponement: now if w has started, else w's start plus the random spread of a `~` window. *)
 Theorem C16_planned_time_spec : forall (sch : list schedule) (l now r P : Z),
   plan_time sch (Some l) now r = Some P ->
